@@ -79,6 +79,21 @@ class Ctx:
     def add_result(self, r: Result):
         self.results.append(r)
         return r
+    def restate(self, producer, old_prefix, new_prefix, keep=None):
+        """run `producer(sub_ctx)` (obligations of another property that are premises of this one) and record the results whose
+        names start with old_prefix under new_prefix, with their functions and replayers; nothing else of the sub-run is kept"""
+        sub = Ctx(self.prop, self.tier, self.seed)
+        producer(sub)
+        n = 0
+        for r in sub.results:
+            if not r.name.startswith(old_prefix): continue
+            if keep is not None and not keep(r.name): continue
+            r.name = new_prefix + r.name[len(old_prefix):]
+            self.results.append(r); n += 1
+        self.functions.update(sub.functions)
+        for pre, fn in sub.replayers.items():
+            if pre.startswith(old_prefix): self.replayers.setdefault(new_prefix + pre[len(old_prefix):], fn)
+        return n
     def fault(self, msg):
         self.faults.append(msg)
 
